@@ -2315,14 +2315,28 @@ def _handle_assignment_ast(
                 vars_env[name] = _ExprStr(name)
             if name not in declared:
                 declared.add(name)
-                nodes.append(
-                    VarDecl(
-                        name=name,
-                        c_type=_cpp_type(inferred_types[idx]),
-                        expr=tmp_names[idx],
-                        global_scope=False,
+                cpp_type = _cpp_type(inferred_types[idx])
+                if is_global_scope:
+                    # a sketch-level variable: declare it at file scope like any other
+                    # first assignment, not as a local of setup()
+                    globals_list.append(
+                        VarDecl(
+                            name=name,
+                            c_type=cpp_type,
+                            expr=_default_value_for_type(cpp_type),
+                            global_scope=True,
+                        )
                     )
-                )
+                    nodes.append(VarAssign(name=name, expr=tmp_names[idx]))
+                else:
+                    nodes.append(
+                        VarDecl(
+                            name=name,
+                            c_type=cpp_type,
+                            expr=tmp_names[idx],
+                            global_scope=False,
+                        )
+                    )
             else:
                 nodes.append(VarAssign(name=name, expr=tmp_names[idx]))
 
